@@ -9,6 +9,7 @@ CONSTANTS
   MaxOps = 7
   Faults = {}
   AllowGap = FALSE
+  Dups = FALSE
   AllowRestart = TRUE
   AllowReorg = FALSE
   Rollups = {}
